@@ -90,12 +90,12 @@ Proof.
       inversion H; subst; clear H. simpl. rewrite app_nil_r. split; [|split].
       - split; [apply quiet_only, quiet_nil|]. intros r Hr. split.
         + intros D. exfalso. eapply quiet_delivered; [apply quiet_nil | exact D].
-        + intros A. fold m in A. exfalso. pose proof (Hh cs st' (leb_false_lt _ _ Elv) r Hr) as F. fold m in F.
+        + intros A. fold m in A. exfalso. pose proof (proj1 Hh cs st' (leb_false_lt _ _ Elv) r Hr) as F. fold m in F.
           destruct (globals_accept c st' m); simpl in *; [|discriminate]. destruct (no_veto c m); simpl in *; congruence.
       - constructor; auto.
       - apply sees_quiet, quiet_nil. }
   destruct (get_interest c pool st cs) as [[i st1] o1] eqn:Eg.
-  destruct (get_interest_spec _ _ _ _ _ _ _ (wf_shape c Hwf) Ip Ic Eg) as (Ei & Q1 & B1 & P1 & S1 & K1 & N1 & H1 & C1).
+  destruct (get_interest_spec _ _ _ _ _ _ _ (wf_shape c Hwf) (proj2 Hh cs) Ip Ic Eg) as (Ei & Q1 & B1 & P1 & S1 & K1 & N1 & H1 & C1).
   fold m in Ei.
   assert (V1 : same_view st st1) by (split; auto).
   assert (I1 : forall b, Inv c pool (with_bits st1 b) past -> True) by auto. clear I1.
@@ -248,11 +248,11 @@ Proof.
   2:{ inversion H; subst; clear H. simpl. rewrite app_nil_r. split; [|split].
       - fold m. split; [apply quiet_only, quiet_nil|]. intros r Hr. split.
         + intros D. exfalso. eapply quiet_delivered; [apply quiet_nil | exact D].
-        + intros A. exfalso. pose proof (Hh cs st (leb_false_lt _ _ Elv) r Hr) as F. fold m in F. congruence.
+        + intros A. exfalso. pose proof (proj1 Hh cs st (leb_false_lt _ _ Elv) r Hr) as F. fold m in F. congruence.
       - constructor; simpl; auto.
       - apply sees_quiet, quiet_nil. }
   destruct (get_interest c pool st cs) as [[i st1] o1] eqn:Eg.
-  destruct (get_interest_spec _ _ _ _ _ _ _ (wf_shape c Hwf) Ip Ic Eg) as (Ei & Q1 & B1 & P1 & S1 & K1 & N1 & H1 & C1).
+  destruct (get_interest_spec _ _ _ _ _ _ _ (wf_shape c Hwf) (proj2 Hh cs) Ip Ic Eg) as (Ei & Q1 & B1 & P1 & S1 & K1 & N1 & H1 & C1).
   fold m in Ei.
   assert (V1 : same_view st st1) by (split; auto).
   assert (Inv1 : forall b o, b = 0 -> Inv c pool (push_handle (with_bits st1 b) o) past).
@@ -328,7 +328,7 @@ Proof.
   destruct (m_level m <=? mx) eqn:Elv; simpl in H.
   2:{ inversion H; subst; clear H. apply Fin. - apply quiet_cons; auto using quiet_nil. - constructor; auto. }
   destruct (get_interest c pool st cs) as [[i st1] o1] eqn:Eg.
-  destruct (get_interest_spec _ _ _ _ _ _ _ (wf_shape c Hwf) Ip Ic Eg) as (Ei & Q1 & B1 & P1 & S1 & K1 & N1 & H1 & C1).
+  destruct (get_interest_spec _ _ _ _ _ _ _ (wf_shape c Hwf) (proj2 Hh cs) Ip Ic Eg) as (Ei & Q1 & B1 & P1 & S1 & K1 & N1 & H1 & C1).
   assert (Inv1 : forall b, b = 0 -> Inv c pool (with_bits st1 b) past).
   { intros b ->. constructor; simpl; auto; try (rewrite S1, N1; auto); try (rewrite N1; auto). }
   assert (Inv1' : Inv c pool st1 past).
